@@ -708,6 +708,8 @@ class FollowSend(SendFilter):
         if isinstance(impl, dict) and "verif-timeout" in str(impl.get("err", "")):
             return Verdict(False, False, "C18: resolving the follow paths did not terminate: %s" % impl["err"])
         v = super().judge(op, impl, model)
+        if model.get("follow_fuel_ok") is False:
+            return Verdict(False, v.spec_ok, "the model's run of the resolver was cut short by its fuel (resolveAllX flag up); " + v.note)
         # (an exception in the caller's own include list may hide what a follow path leads to: the resolution clause is judged
         # for lists without exceptions only; the view itself is compared with the model in every case)
         neg = any(bytes.fromhex(p).strip().startswith(b"!") for p in op["sfilter"].get("include", []))
